@@ -57,35 +57,41 @@ Print Assumptions ratio_one_all_landmarks_partial.
 
 (* T4 triangulate: every row index < N is written exactly once and nothing else is written;
    row landmarks[i] is a copy of first.row(i) taken BEFORE the in-place division by the
-   eigenvalues; every other row x is  -1/2 * pinv(Y_L) * (d(x, landmarks)^2 - mu). *)
+   eigenvalues; every other row x is  -1/2 * pinv(Y_L) * (d(x, landmarks)^2 - mu)  in every kept
+   column and 0 in every dropped (null-eigenvalue) column.  `keep c` is the outcome of the code's
+   comparison second(c) > max|second| * L * eps (7bdf733); the code before that commit is the
+   instance keep = keep_all (every column divided, T4 then reads as before). *)
 Theorem triangulate_formula : forall (F : Type) (Fo : FieldOps F) (Ff : IsField F)
-    (N d : nat) (lm : list nat) (dist : mat F) (mu_size : nat) (mu : vec F)
+    (N d : nat) (keep : nat -> bool) (lm : list nat) (dist : mat F) (mu_size : nat) (mu : vec F)
     (E : eig_result) (ws : list (nat * vec F)),
   NoDup lm ->
-  triangulate N d lm dist mu_size mu E = LOk ws ->
+  triangulate N d keep lm dist mu_size mu E = LOk ws ->
   (forall x, x < N -> count_occ Nat.eq_dec (map fst ws) x = 1) /\
   (forall x, In x (map fst ws) -> x < N) /\
   (forall i, i < length lm -> last_write ws (lmk lm i) = Some (mrow (er_first E) i)) /\
   (forall x, x < N -> ~ In x lm ->
      exists v, last_write ws x = Some v /\
-       veq d v (tri_spec_row (length lm) lm dist mu (er_first E) (er_second E) x)).
+       forall c, c < d ->
+         v c = if keep c then tri_spec_row (length lm) lm dist mu (er_first E) (er_second E) x c
+               else 0%F).
 Proof. exact @triangulate_formula_lemma. Qed.
 Print Assumptions triangulate_formula.
 
 (* T5 no out-of-range access in triangulate when the shapes agree *)
 Theorem triangulate_no_oob : forall (F : Type) (Fo : FieldOps F)
-    (N d : nat) (lm : list nat) (dist : mat F) (mu : vec F) (E : eig_result),
+    (N d : nat) (keep : nat -> bool) (lm : list nat) (dist : mat F) (mu : vec F) (E : eig_result),
   Forall (fun l => l < N) lm ->
   er_rows E = length lm -> er_cols E = d -> d <= er_size E ->
-  exists ws, triangulate N d lm dist (length lm) mu E = LOk ws.
+  exists ws, triangulate N d keep lm dist (length lm) mu E = LOk ws.
 Proof. exact @triangulate_total. Qed.
 Print Assumptions triangulate_no_oob.
 
 (* T6 "Landmark MDS embeds the landmarks exactly as MDS would embed that subset" *)
 Theorem lmds_landmarks_are_mds : forall (F : Type) (Fo : FieldOps F)
-    (N d : nat) (lm : list nat) (dist W : mat F) (w s : vec F) (ws : list (nat * vec F)),
+    (N d : nat) (keep : nat -> bool) (lm : list nat) (dist W : mat F) (w s : vec F)
+    (ws : list (nat * vec F)),
   NoDup lm ->
-  lmds_embed N d lm dist W w s = LOk ws ->
+  lmds_embed N d keep lm dist W w s = LOk ws ->
   let L := length lm in
   let sub : mat F := fun i j => dist (lmk lm i) (lmk lm j) in
   (forall i j, lmds_matrix lm dist i j = mds_matrix_full L sub i j) /\
@@ -96,40 +102,50 @@ Print Assumptions lmds_landmarks_are_mds.
 
 (* T7 "... and places every other sample by distance-based triangulation against them" *)
 Theorem lmds_triangulates : forall (F : Type) (Fo : FieldOps F) (Ff : IsField F)
-    (N d : nat) (lm : list nat) (dist W : mat F) (w s : vec F) (ws : list (nat * vec F)),
+    (N d : nat) (keep : nat -> bool) (lm : list nat) (dist W : mat F) (w s : vec F)
+    (ws : list (nat * vec F)),
   NoDup lm ->
-  lmds_embed N d lm dist W w s = LOk ws ->
+  lmds_embed N d keep lm dist W w s = LOk ws ->
   let L := length lm in
   (forall x, x < N -> count_occ Nat.eq_dec (map fst ws) x = 1) /\
   (forall x, In x (map fst ws) -> x < N) /\
   (forall x, x < N -> ~ In x lm ->
      exists v, last_write ws x = Some v /\
-       veq d v (tri_spec_row L lm dist (landmark_mu L (landmark_dist_sq lm dist))
-                             (scale_by (sel_vecs L d W) s) (sel_vals L d w) x)).
+       forall c, c < d ->
+         v c = if keep c
+               then tri_spec_row L lm dist (landmark_mu L (landmark_dist_sq lm dist))
+                                 (scale_by (sel_vecs L d W) s) (sel_vals L d w) x c
+               else 0%F).
 Proof. exact @lmds_triangulates_lemma. Qed.
 Print Assumptions lmds_triangulates.
 
 (* T8 the "Hence" clause: Euclidean input (distances of the rows of an N x D table X) whose
-   centred landmark Gram matrix is carried by the d selected eigenpairs (intrinsic dimension
-   <= d), eigen/sqrt oracle contract, landmarks that span the data: the embedding reproduces
-   ALL pairwise distances, for every such landmark list. *)
+   centred landmark Gram matrix is carried by the d selected eigenpairs (intrinsic dimension AT MOST
+   d: a selected eigenvalue may be null, its column is then dropped and its sqrt is 0),
+   eigen/sqrt oracle contract, landmarks that span the data: the embedding reproduces ALL pairwise
+   distances, for every such landmark list.  For the code before 7bdf733 (keep = keep_all) the
+   hypotheses force every selected eigenvalue to be non-zero, i.e. intrinsic dimension EXACTLY d:
+   finding F42 (null eigenvalue used as divisor) lives in that gap. *)
 Theorem lmds_reproduces_euclidean : forall (F : Type) (Fo : FieldOps F) (Ff : IsField F)
-    (N D d : nat) (lm : list nat) (X dist W : mat F) (w s : vec F) (ws : list (nat * vec F)),
+    (N D d : nat) (keep : nat -> bool) (lm : list nat) (X dist W : mat F) (w s : vec F)
+    (ws : list (nat * vec F)),
   NoDup lm ->
   let L := length lm in
   let V := sel_vecs L d W in let lam := sel_vals L d w in
   of_nat L <> 0%F -> @two F Fo <> 0%F ->
   (forall a b, a < N -> b < N -> (dist a b * dist a b)%F = lm_sqdist D X a b) ->
-  lmds_embed N d lm dist W w s = LOk ws ->
+  lmds_embed N d keep lm dist W w s = LOk ws ->
   meq L d (mmul L (lmds_matrix lm dist) V) (mmul d V (mdiag lam)) ->
   lm_rank_d L d (lmds_matrix lm dist) V lam ->
-  (forall c, c < d -> lam c <> 0%F) ->
   (forall c, c < d -> (s c * s c)%F = lam c) ->
+  (forall c, c < d -> keep c = true -> lam c <> 0%F) ->
+  (forall c, c < d -> keep c = false -> s c = 0%F) ->
   landmarks_span N D lm X ->
   lm_dist_reproduced N d (last_write ws) dist.
 Proof. exact @lmds_reproduces_euclidean_lemma. Qed.
 Print Assumptions lmds_reproduces_euclidean.
 
+(* hypotheses satisfiable: intrinsic dimension = d (all columns kept) ... *)
 Example lmds_reproduces_euclidean_hypotheses_satisfiable :
   NoDup ex_lm /\
   @of_nat Qc _ (length ex_lm) <> 0%F /\ @two Qc _ <> 0%F /\
@@ -138,17 +154,43 @@ Example lmds_reproduces_euclidean_hypotheses_satisfiable :
   meq 4 1 (mmul 4 (lmds_matrix ex_lm ex_dist) (sel_vecs 4 1 ex_W))
           (mmul 1 (sel_vecs 4 1 ex_W) (mdiag (sel_vals 4 1 ex_w))) /\
   lm_rank_d 4 1 (lmds_matrix ex_lm ex_dist) (sel_vecs 4 1 ex_W) (sel_vals 4 1 ex_w) /\
-  (forall c, c < 1 -> sel_vals 4 1 ex_w c <> 0%F) /\
   (forall c, c < 1 -> (ex_s c * ex_s c)%F = sel_vals 4 1 ex_w c) /\
+  (forall c, c < 1 -> @keep_all c = true -> sel_vals 4 1 ex_w c <> 0%F) /\
+  (forall c, c < 1 -> @keep_all c = false -> ex_s c = 0%F) /\
   landmarks_span 6 1 ex_lm ex_X.
 Proof. exact lmds_reproduces_euclidean_nonvacuous. Qed.
+
+(* ... and intrinsic dimension 1 < d = 2 with the null column dropped *)
+Example lmds_reproduces_euclidean_hypotheses_satisfiable_dropped_column :
+  NoDup ex_lm /\
+  @of_nat Qc _ (length ex_lm) <> 0%F /\ @two Qc _ <> 0%F /\
+  (forall a b, a < 6 -> b < 6 -> (ex_dist a b * ex_dist a b)%F = lm_sqdist 1 ex_X a b) /\
+  ex2_run = LOk ex2_ws /\
+  meq 4 2 (mmul 4 (lmds_matrix ex_lm ex_dist) (sel_vecs 4 2 ex2_W))
+          (mmul 2 (sel_vecs 4 2 ex2_W) (mdiag (sel_vals 4 2 ex2_w))) /\
+  lm_rank_d 4 2 (lmds_matrix ex_lm ex_dist) (sel_vecs 4 2 ex2_W) (sel_vals 4 2 ex2_w) /\
+  (forall c, c < 2 -> (ex2_s c * ex2_s c)%F = sel_vals 4 2 ex2_w c) /\
+  (forall c, c < 2 -> ex2_keep c = true -> sel_vals 4 2 ex2_w c <> 0%F) /\
+  (forall c, c < 2 -> ex2_keep c = false -> ex2_s c = 0%F) /\
+  landmarks_span 6 1 ex_lm ex_X.
+Proof. exact lmds_reproduces_euclidean_nonvacuous_dropped_column. Qed.
+
+(* T8' the code before 7bdf733 divides every selected column by its eigenvalue, null or not
+   (regression statement for F42; in binary64 the null eigenvalue is +-1e-15 and the quotient is
+   noise of order 1e8, see corpus/C11/f42_intrinsic_dim_below_target.json) *)
+Theorem lmds_null_eigenvalue_divided_before_fix : forall (F : Type) (Fo : FieldOps F)
+    (E : eig_result) (d r c : nat),
+  c < d -> tri_divide d keep_all E r c = (er_first E r c / er_second E c)%F.
+Proof. exact @tri_divide_old_divides. Qed.
+Print Assumptions lmds_null_eigenvalue_divided_before_fix.
 
 (* T9 whole method: any permutation, any count with target_dimension <= count <= N: an embedding
    is produced, no out-of-range access, every row written exactly once *)
 Theorem lmds_no_oob : forall (F : Type) (Fo : FieldOps F) (Ff : IsField F)
-    (N d : nat) (shuffled : list nat) (count : nat) (dist W : mat F) (w s : vec F),
+    (N d : nat) (keep : nat -> bool) (shuffled : list nat) (count : nat) (dist W : mat F)
+    (w s : vec F),
   Permutation shuffled (seq 0 N) -> d <= count -> count <= N ->
-  exists ws, lmds N d shuffled count dist W w s = LOk ws /\
+  exists ws, lmds N d keep shuffled count dist W w s = LOk ws /\
     (forall x, x < N -> count_occ Nat.eq_dec (map fst ws) x = 1) /\
     (forall x, In x (map fst ws) -> x < N).
 Proof. exact @lmds_total_lemma. Qed.
@@ -184,10 +226,11 @@ Proof. exact lisomap_runs. Qed.
    then Wp meets it for MDS's matrix.  PARTIAL: "coincide up to column signs" additionally needs
    uniqueness of unit eigenvectors for simple eigenvalues, which is not formalised here. *)
 Theorem ratio_one_lmds_partial : forall (F : Type) (Fo : FieldOps F) (Ff : IsField F)
-    (N d : nat) (lm : list nat) (dist W : mat F) (w s : vec F) (ws : list (nat * vec F)),
+    (N d : nat) (keep : nat -> bool) (lm : list nat) (dist W : mat F) (w s : vec F)
+    (ws : list (nat * vec F)),
   Permutation lm (seq 0 N) ->
   (forall a b, a < N -> b < N -> dist a b = dist b a) ->
-  lmds_embed N d lm dist W w s = LOk ws ->
+  lmds_embed N d keep lm dist W w s = LOk ws ->
   let Wp : mat F := fun a c => W (pos_of lm a) c in
   (exists Y0, mds_embed N d Wp w s = LOk Y0 /\
               forall a, a < N -> last_write ws a = Some (mrow Y0 a)) /\
@@ -199,7 +242,7 @@ Print Assumptions ratio_one_lmds_partial.
 Example ratio_one_lmds_partial_nonvacuous :
   Permutation ex_perm (seq 0 6) /\
   (forall a b, a < 6 -> b < 6 -> ex_dist a b = ex_dist b a) /\
-  exists ws, lmds_embed 6 1 ex_perm ex_dist ex_W ex_w ex_s = LOk ws.
+  exists ws, lmds_embed 6 1 keep_all ex_perm ex_dist ex_W ex_w ex_s = LOk ws.
 Proof. exact ratio_one_nonvacuous. Qed.
 
 (* T14 ratio = 1, Landmark Isomap (dense).  With symmetric geodesics G and every sample a
@@ -228,12 +271,13 @@ Local Open Scope string_scope.
    validate() has target_dimension <= count <= N for the landmark count the code computes, so the
    whole method produces an embedding without any out-of-range access. *)
 Theorem lmds_validated_no_oob : forall (F : Type) (Fo : FieldOps F) (Ff : IsField F)
-    (N d : nat) (ratio : float) (count : nat) (shuffled : list nat) (dist W : mat F) (w s : vec F),
+    (N d : nat) (keep : nat -> bool) (ratio : float) (count : nat) (shuffled : list nat)
+    (dist W : mat F) (w s : vec F),
   Permutation shuffled (seq 0 N) ->
   lmds_validate N d ratio = true ->
   n_landmarks_nat N ratio = Some count ->
   d <= count /\ count <= N /\
-  exists ws, lmds N d shuffled count dist W w s = LOk ws /\
+  exists ws, lmds N d keep shuffled count dist W w s = LOk ws /\
     (forall x, x < N -> count_occ Nat.eq_dec (map fst ws) x = 1) /\
     (forall x, In x (map fst ws) -> x < N).
 Proof. exact @lmds_validated_no_oob_lemma. Qed.
@@ -248,9 +292,9 @@ Proof. exact (conj (proj2 (proj2 f21_validate_witness)) (proj2 f21_float_witness
    rejected (InRange(1, N) on target_dimension, [3/N, 1] on the ratio only) and then rightCols(d)
    leaves the L-column eigenvector matrix, whatever the solver answered. *)
 Theorem lmds_bounds_refuted : forall (F : Type) (Fo : FieldOps F)
-    (N d : nat) (lm : list nat) (dist W : mat F) (w s : vec F),
+    (N d : nat) (keep : nat -> bool) (lm : list nat) (dist W : mat F) (w s : vec F),
   Forall (fun l => l < N) lm -> length lm < d ->
-  lmds_embed N d lm dist W w s =
+  lmds_embed N d keep lm dist W w s =
     LOOB "solver.eigenvectors().rightCols(target_dimension)" d (length lm).
 Proof. exact @lmds_embed_bounds. Qed.
 Print Assumptions lmds_bounds_refuted.
@@ -260,7 +304,7 @@ Example lmds_bounds_refuted_witness :
   lmds_validate 10 5 0x1.3333333333333p-2%float = false /\
   ratio_valid 10 0x1.3333333333333p-2%float = true /\
   n_landmarks_nat 10 0x1.3333333333333p-2%float = Some 3 /\
-  lmds_embed 6 5 [0; 1; 2] ex_dist ex_W ex_w ex_s =
+  lmds_embed 6 5 keep_all [0; 1; 2] ex_dist ex_W ex_w ex_s =
     LOOB "solver.eigenvectors().rightCols(target_dimension)" 5 3.
 Proof.
   exact (conj (proj1 f21_validate_witness) (conj (proj1 (proj2 f21_validate_witness))
